@@ -127,6 +127,29 @@ def wrappers(chk, kind, st, arr, els, rows, total, r, with_index):
         except Exception as e:  # noqa: BLE001
             chk.violation(f"DaskGeoSeries.bounds/{kind}/raises-{common.err_kind(e)}", dict(rep, error=repr(e)[:300]))
         chk.count("wrapper:dask")
+        # a Dask frame that has already answered a spatial question (its partition bounds are cached), then filtered by a row mask:
+        # the filtered frame's total bounds are those of the rows it kept
+        if n >= 2:
+            try:
+                from spatialpandas import GeoDataFrame
+                gdf = GeoDataFrame({"g": arr, "v": list(range(n))})
+                ddf = dd.from_pandas(gdf, npartitions=r.randint(1, min(3, n)))
+                ddf.cx[-5:5, -5:5].compute()
+                ddf.geometry.partition_bounds
+                keep = [i for i in range(n) if i % 2 == 1]
+                flt = ddf[ddf["v"] % 2 == 1]
+                want_rows = [rows[i] for i in keep]
+                cols = list(zip(*want_rows)) if want_rows else [[], [], [], []]
+                def fold(c, fn):
+                    vals = [x for x in c if x != "nan"]
+                    return fn(vals) if vals else "nan"
+                want = [fold(cols[0], min), fold(cols[1], min), fold(cols[2], max), fold(cols[3], max)]
+                got = canon_row(flt.geometry.total_bounds)
+                if got != want and any(t != "nan" for t in want):
+                    chk.violation(f"DaskGeoSeries.total_bounds/{kind}/differs-after-filter", dict(rep, kept_rows=keep, impl=got, from_kept_rows=want))
+                chk.count("wrapper:dask-filtered")
+            except Exception as e:  # noqa: BLE001
+                chk.violation(f"DaskGeoSeries.total_bounds/{kind}/filtered-raises-{common.err_kind(e)}", dict(rep, error=repr(e)[:300]))
     mixed = any(any(x == "nan" for x in row) and not all(x == "nan" for x in row) for row in rows)
     if with_index and mixed:
         chk.drifted("an element has a bounds row that is NaN on one axis only (a half-defined box): the spatial index holds boxes, its total_bounds is not compared")
